@@ -85,6 +85,21 @@ Definition second_ok (keys : list N) (r1 : N -> obsv) (bs2 : list batch) (r2 : N
 Definition second_ok_b (keys : list N) (r1 : N -> obsv) (bs2 : list batch) (r2 : N -> obsv) : bool :=
   forallb (fun k => obsv_eqb (r2 k) (last_write k (concat bs2) (r1 k))) keys.
 
+(** * C09 at the wal.Manager level: records appended and then Sync'ed are acknowledged; after a
+      crash the replay is a prefix of the appended records that contains every acknowledged one *)
+Definition wal_acked_durable (appended : list N) (acked : nat) (replayed : list N) : Prop :=
+  (exists rest, appended = replayed ++ rest) /\ (acked <= length replayed)%nat.
+
+Fixpoint prefix_b (a b : list N) : bool :=
+  match a, b with
+  | [], _ => true
+  | x :: a', y :: b' => (x =? y) && prefix_b a' b'
+  | _ :: _, [] => false
+  end.
+
+Definition wal_acked_durable_b (appended : list N) (acked : nat) (replayed : list N) : bool :=
+  prefix_b replayed appended && Nat.leb acked (length replayed).
+
 (** * Side conditions of the partial theorems *)
 
 (** no WAL flush can fall strictly inside a request: only its first entry may rotate the
